@@ -122,6 +122,25 @@ func main() {
 			rf.Status = "no-failing-input-found"
 			rf.Note = "no parameter assignment reaching the violated obligation within 3 loop iterations was found"
 		}
+		if rf.Status != "confirmed" {
+			// the lemma is executable: search boundary-biased random inputs for one that
+			// makes this assertion fail on the real code
+			cfg := newRunCfg()
+			P.applyLemmaConfig(fn, cfg)
+			cases := 300000
+			if *timeout > 30000 {
+				cases = 5000000
+			}
+			if sa := P.searchInput(fn, args[2], cfg, cases, envInt("VERIF_SEED", 1)); sa != nil {
+				rf2 := &ReplayFile{Obligation: rf.Obligation, Lemma: rf.Lemma, Package: rf.Package, Args: sa}
+				P.RunReplay(rf2)
+				if rf2.Status == "confirmed" {
+					rf2.Note = "input found by the seeded random / boundary search over the executable lemma function (the solver's refutation gave no usable input)"
+					rf2.SolverOutput = rf.SolverOutput
+					rf = rf2
+				}
+			}
+		}
 		b, _ := json.MarshalIndent(rf, "", " ")
 		os.WriteFile(args[3], b, 0o644)
 	case "replay":
